@@ -359,6 +359,13 @@ class GenV:
         return iter(self.items)
 
 
+class RepList:
+    """[x] * n for a symbolic n"""
+
+    def __init__(self, elem, n):
+        self.elem, self.n = elem, n
+
+
 class Opaque:
     def __init__(self, name):
         self.name = name
@@ -1331,15 +1338,21 @@ class Interp:
     def e_BoolOp(self, n, env):
         is_and = isinstance(n.op, ast.And)
         if self.spec:
-            vals = [self.eval(v, env) for v in n.values]
-            if any(isinstance(v, Sym) for v in vals):
-                return V.sand(*vals) if is_and else V.sor(*vals)
-            r = vals[0]
-            for v in vals:
-                r = v
-                if bool(v) != is_and:
+            syms = []
+            last = None
+            for vn in n.values:
+                v = self.eval(vn, env)
+                last = v
+                if isinstance(v, Sym):
+                    syms.append(v)
+                    continue
+                if bool(v) != is_and:          # concrete value decides (short-circuit, as Python does)
+                    if syms and ((is_and and not bool(v)) or ((not is_and) and bool(v))):
+                        return v if not syms else (False if is_and else True)
                     return v
-            return r
+            if syms:
+                return V.sand(*syms) if is_and else V.sor(*syms)
+            return last
         last = None
         for v in n.values:
             last = self.eval(v, env)
@@ -1388,6 +1401,8 @@ class Interp:
             return V.arith(op, a, b)
         if op == "+" and isinstance(a, (list, tuple, str)) and isinstance(b, type(a)):
             return a + b
+        if op == "*" and isinstance(a, list) and len(a) == 1 and isinstance(b, Sym):
+            return RepList(a[0], b)
         if op == "*" and isinstance(a, (list, tuple, str)) and isinstance(b, int):
             return a * b
         if op == "*" and isinstance(b, (list, tuple, str)) and isinstance(a, int):
@@ -1533,6 +1548,13 @@ class Interp:
             if k not in o:
                 raise PyRaise(self.make_exc("KeyError", k))
             return o[k]
+        if getattr(o, "_pyvc_native", False) and hasattr(type(o), "__getitem__"):
+            try:
+                return o[k]
+            except KeyError as e:
+                raise PyRaise(self.make_exc("KeyError", *e.args))
+            except (TypeError, IndexError) as e:
+                raise PyRaise(self.make_exc(type(e).__name__, str(e)))
         h = self.stubs.get("__getitem__")
         if h is not None:
             r = h(self, o, k)
@@ -1678,6 +1700,11 @@ class Interp:
             return iter(it)
         if isinstance(it, SArr):
             return iter(it)
+        if getattr(it, "_pyvc_native", False) and hasattr(type(it), "__iter__"):
+            try:
+                return iter(list(it))
+            except TypeError as e:
+                raise PyRaise(self.make_exc("TypeError", str(e)))
         h = self.stubs.get("__iter__")
         if h is not None:
             r = h(self, it)
